@@ -68,7 +68,8 @@ structure HState where
 
 def HState.lives (h : HState) : List Ext := (h.held.filter (fun m => m.memSize != 0)).map Meta.owned ++ h.detached
 
-def okAlignment (talign : Nat) : Prop := talign = 1 ∨ talign = 2 ∨ talign = 4 ∨ talign = 8 ∨ talign = 16
+def okAlignment (talign : Nat) : Prop :=
+  talign = 1 ∨ talign = 2 ∨ talign = 4 ∨ talign = 8 ∨ talign = 16 ∨ talign = 32 ∨ talign = 64
 
 /-- one step; allocation failures leave the state unchanged; releasing a missing index is a no-op -/
 def HState.step (c : Cfg) (h : HState) : HOp → HState
